@@ -1670,6 +1670,15 @@ class Resolver:
                 if e[0] == 'agg' and e[1] == 'tuple' and name.isdigit() and int(name) < len(e[2]):
                     e = e[2][int(name)]
                     continue
+                # component of a value that is one of several tuples (a helper returning (a, b) from different arms): the join of the components
+                if e[0] == 'phi' and len(e) > 2 and name.isdigit() and isinstance(e[1], int) and \
+                        all(a[0] == 'agg' and a[1] == 'tuple' and int(name) < len(a[2]) for a in e[2]):
+                    comps = []
+                    for a in e[2]:
+                        if a[2][int(name)] not in comps:
+                            comps.append(a[2][int(name)])
+                    e = comps[0] if len(comps) == 1 else ('phi', ('comp', e[1], int(name)), tuple(comps))
+                    continue
                 if e[0] == 'agg' and isinstance(e[1], tuple) and e[1][0] == 'adt':
                     fields = e[1][3]
                     if name in fields and fields.index(name) < len(e[2]):
@@ -2166,6 +2175,14 @@ def value_table(body, R, local=0, depth=0):
     """Like phi_table, but alternatives that are themselves joins of another local (the return value of a grafted helper, a temporary holding
     the result of an if/else) are expanded into that local's alternatives, each with the guards of both assignments."""
     out = []
+    if isinstance(local, tuple) and local[:1] == ('comp',):
+        # component i of a local that is assigned one of several tuples
+        for v, lits, bb in value_table(body, R, local[1], depth):
+            if v[0] == 'agg' and v[1] == 'tuple' and local[2] < len(v[2]):
+                out.append((v[2][local[2]], lits, bb))
+            else:
+                out.append((('field', v, str(local[2])), lits, bb))
+        return out
     for v, lits, bb in phi_table(body, R, local):
         if v[0] == 'phi' and len(v) > 2 and depth < 3 and v[1] != local:
             for v2, lits2, bb2 in value_table(body, R, v[1], depth + 1):
